@@ -1321,6 +1321,96 @@ def undo_dict_dispatch(trees, ref_trees) -> List[Tuple[str, str, str]]:
     return records
 
 
+def _all_nodes_post_order(e) -> List[ast.AST]:
+    out = []
+
+    def rec(n):
+        for c in ast.iter_child_nodes(n):
+            rec(c)
+        out.append(n)
+    rec(e)
+    return out
+
+
+def forward_new_temps(fn, ref_fn) -> List[str]:
+    """Undo "introduce variable": a local that does not exist in the
+    reference function, is bound exactly once by `x = <expr>` and is read
+    exactly once, in the statement that immediately follows, at a position
+    that is evaluated once and before anything with a side effect, is
+    substituted back (`_rv = f(); return _rv`  ->  `return f()`)."""
+    ref_names = _all_names(ref_fn)
+    counts = _store_count(fn)
+    done: List[str] = []
+
+    def header_of(st):
+        if isinstance(st, (ast.Expr, ast.Assign, ast.AugAssign, ast.Return,
+                           ast.AnnAssign)):
+            return st.value
+        if isinstance(st, ast.If):
+            return st.test
+        if isinstance(st, ast.For):
+            return st.iter
+        if isinstance(st, ast.With) and len(st.items) == 1:
+            return st.items[0].context_expr
+        if isinstance(st, ast.Raise):
+            return st.exc
+        return None
+
+    def block(stmts):
+        out = []
+        i = 0
+        while i < len(stmts):
+            st = stmts[i]
+            for field in ('body', 'orelse', 'finalbody'):
+                sub = getattr(st, field, None)
+                if isinstance(sub, list) and sub and \
+                        isinstance(sub[0], ast.stmt) and not isinstance(
+                            st, (ast.FunctionDef, ast.ClassDef,
+                                 ast.AsyncFunctionDef)):
+                    setattr(st, field, block(sub))
+            for h in getattr(st, 'handlers', []) or []:
+                h.body = block(h.body)
+            nxt = stmts[i + 1] if i + 1 < len(stmts) else None
+            if isinstance(st, ast.Assign) and len(st.targets) == 1 and \
+                    isinstance(st.targets[0], ast.Name) and nxt is not None:
+                x = st.targets[0].id
+                hdr = header_of(nxt)
+                loads = [n for n in ast.walk(fn) if isinstance(n, ast.Name)
+                         and n.id == x and isinstance(n.ctx, ast.Load)]
+                if x not in ref_names and counts.get(x, 0) == 1 and \
+                        len(loads) == 1 and hdr is not None and \
+                        any(n is loads[0] for n in ast.walk(hdr)) and \
+                        _single_use_outside_loops([ast.Expr(value=hdr)], x):
+                    order = _all_nodes_post_order(hdr)
+                    pos = [k for k, n in enumerate(order) if n is loads[0]][0]
+                    cond = False
+                    for n in ast.walk(hdr):
+                        if isinstance(n, ast.IfExp) and any(
+                                m is loads[0] for b in (n.body, n.orelse)
+                                for m in ast.walk(b)):
+                            cond = True
+                        if isinstance(n, ast.BoolOp) and any(
+                                m is loads[0] for v in n.values[1:]
+                                for m in ast.walk(v)):
+                            cond = True
+                    if not cond and not any(isinstance(n, EFFECT)
+                                            for n in order[:pos]):
+                        sw = _Swap(loads[0], st.value)
+                        sw.visit(nxt)
+                        if sw.done:
+                            done.append(x)
+                            i += 1
+                            continue      # drop the assignment
+            out.append(st)
+            i += 1
+        return out
+
+    fn.body = block(fn.body)
+    if done:
+        ast.fix_missing_locations(fn)
+    return done
+
+
 def inline_new_helpers(trees: Dict[str, ast.Module],
                        ref_trees: Dict[str, Optional[ast.Module]]):
     """Inline in place; returns (records, skipped)."""
